@@ -908,6 +908,17 @@ func TestVerifC24(t *testing.T) {
 		"cross_secondary_kind_of_other_fork", "cross_primary_under_other_forks_threshold"} {
 		r.Floor("label_"+l, 10)
 	}
+	for _, kn := range []string{"plain", "vrf"} {
+		r.Floor("same_slot_cases_"+kn, 15)
+		r.Floor("same_slot_cases_author_differs_"+kn, 10)
+		r.Floor("same_slot_same_n_after_other_randomness_"+kn, 400)
+		r.Floor("same_slot_same_n_after_other_randomness_author_differs_"+kn, 300)
+		r.Floor("direct_verifications_"+kn, 400)
+	}
+	r.Floor("same_slot_interleaved_A_B_A", 100)
+	r.Floor("same_slot_cases_different_authority_lists_of_equal_length", 10)
+	r.Floor("label_same_slot_secondary_by_assigned_author", 200)
+	r.Floor("label_same_slot_secondary_by_author_under_other_forks_randomness", 60)
 	r.Floor("vrf_tamper_on_primary", 50)
 	r.Floor("vrf_tamper_on_secondary_vrf", 10)
 	r.Floor("scenario_parent_skipped-epochs", 3)
@@ -927,6 +938,12 @@ func TestVerifC24(t *testing.T) {
 	// competing forks on one manager: one scenario per kind of difference (seed independent), then seeded ones
 	r.Fixed("forks-corpus", len(vfForkVariants), func(c *vcommon.Case) { vfRunForks(c, vfForkVariants[c.Idx]) })
 	r.Cases("forks", r.Scale(80), func(c *vcommon.Case) { vfRunForks(c, vfForkVariants[c.Idx%len(vfForkVariants)]) })
+
+	// the SAME slot number on forks whose randomness differs (zz_verif_c24_sameslot_test.go): plain / VRF x same keys /
+	// different authority lists of equal length, through the manager and directly at verifySecondarySlotPlain / VRF
+	r.Fixed("sameslot-corpus", 8, func(c *vcommon.Case) { vfRunSameSlot(c, byte(1+c.Idx%2), (c.Idx/2)%2 == 0) })
+	r.Cases("sameslot", r.Scale(60), func(c *vcommon.Case) { vfRunSameSlot(c, byte(1+c.Idx%2), c.R.Bool()) })
+	r.Cases("secverify-direct", r.Scale(80), func(c *vcommon.Case) { vfRunSecVerifyDirect(c, byte(1+c.Idx%2)) })
 
 	r.Cases("gen", r.Scale(400), func(c *vcommon.Case) {
 		cc := vcommon.Pick(c.R, [][2]uint64{{1, 4}, {1, 2}, {1, 1}})
